@@ -437,8 +437,13 @@ class AsCompleted(_CHarness):
           timeoutish = getattr(e, 'code', 0) == 4 or isinstance(e, TimeoutError)
           if usable > 0 and not (p['driver'] != 'as_completed' and faults
                                  and timeoutish):
-            out.append((f'C06:tasks:wrong-error-for-failing-task:{fault}:{cfg}',
-                        {'end': repr(e)}))
+            if p['driver'] == 'as_completed' and 'All workers timeout' in str(e):
+              # same failure as in the good-task configurations: one signature
+              out.append((f'C06:tasks:all-workers-timeout-although-a-worker-is-'
+                          f'usable:{cfg}', {'end': repr(e)}))
+            else:
+              out.append((f'C06:tasks:wrong-error-for-failing-task:{fault}:{cfg}',
+                          {'end': repr(e)}))
       elif p['driver'] != 'as_completed':
         # run()/call_and_wait() do not retry: a retriable transport error may
         # surface, but only as a time-out style error, never silently
